@@ -1,35 +1,70 @@
 #!/usr/bin/env python3
-"""seedtest.py <seed id> [check ids...] [--tier quick|thorough]
-Applies /verif/seeded/<id>/patch.diff to /repo, runs the named checks (default: the mutant's property),
-and ALWAYS reverts /repo afterwards.  Records the outcome in meta.json ('detected_by')."""
-import sys, os, json, subprocess
+"""seedtest.py <seed id> [check ids...] [--tier quick|thorough] [--inplace] [--seed N]
+Runs the named checks (default: the mutant's property) against the repository with
+/verif/seeded/<id>/patch.diff applied and records the outcome in meta.json ('detected_by').
+
+Default: a scratch git worktree of /repo's HEAD under /tmp (NV_REPO points the checks at it, evidence and
+replays go to a scratch directory, everything is removed afterwards) - several of these can run side by side
+and /repo is never touched.  --inplace: apply to /repo itself, run, and ALWAYS revert (git checkout -- .)."""
+import sys, os, json, subprocess, shutil, hashlib
 args = [a for a in sys.argv[1:] if not a.startswith("--")]
 tier = "quick"
+vseed = None
 if "--tier" in sys.argv:
     tier = sys.argv[sys.argv.index("--tier") + 1]
     args = [a for a in args if a != tier]
+if "--seed" in sys.argv:
+    vseed = sys.argv[sys.argv.index("--seed") + 1]
+    args.remove(vseed)
+inplace = "--inplace" in sys.argv
 sid = args[0]
 d = "/verif/seeded/" + sid
 meta = json.load(open(d + "/meta.json"))
 checks = args[1:] or [meta["property"]]
-st = subprocess.run("git -C /repo status --porcelain --untracked-files=no", shell=True, capture_output=True, text=True).stdout
-if st.strip():
-    print("refusing: /repo has uncommitted changes"); sys.exit(2)
-r = subprocess.run("git -C /repo apply %s/patch.diff" % d, shell=True)
-if r.returncode != 0:
-    print("patch does not apply"); sys.exit(2)
+env = dict(os.environ)
+if vseed:
+    env["VERIF_SEED"] = vseed
+wt = None
+if inplace:
+    st = subprocess.run("git -C /repo status --porcelain --untracked-files=no", shell=True, capture_output=True, text=True).stdout
+    if st.strip():
+        print("refusing: /repo has uncommitted changes"); sys.exit(2)
+    r = subprocess.run("git -C /repo apply %s/patch.diff" % d, shell=True)
+    if r.returncode != 0:
+        print("patch does not apply"); sys.exit(2)
+else:
+    wt = "/tmp/st_%s_%d" % (sid, os.getpid())
+    r = subprocess.run("git -C /repo worktree add --detach %s HEAD >/dev/null 2>&1 && git -C %s apply %s/patch.diff" % (wt, wt, d),
+                       shell=True)
+    if r.returncode != 0:
+        subprocess.run("git -C /repo worktree remove --force %s" % wt, shell=True)
+        print("patch does not apply"); sys.exit(2)
+    env["NV_REPO"] = wt
+    env["NV_EVIDENCE_DIR"] = wt + "/.nv_evidence"
+    env["NV_REPLAY_DIR"] = wt + "/.nv_replays"
 res = {}
 try:
     for c in checks:
-        p = subprocess.run("cd /verif && ./check %s --tier %s" % (c, tier), shell=True, capture_output=True, text=True)
+        p = subprocess.run("cd /verif && ./check %s --tier %s" % (c, tier), shell=True, capture_output=True, text=True, env=env)
         viol = [l for l in p.stdout.split("\n") if l.startswith("VIOLATION")]
         res[c] = {"exit": p.returncode, "violations": len(viol), "first": (p.stdout.split("VIOLATION", 1)[1][:600] if viol else ""),
                   "tail": p.stdout.strip().split("\n")[-1][:300]}
-        print(sid, c, "exit=%d" % p.returncode, "violations=%d" % len(viol))
+        print(sid, c, "exit=%d" % p.returncode, "violations=%d" % len(viol), res[c]["tail"][-80:])
         if viol:
             print("   ", res[c]["first"][:400].replace("\n", " "))
+        elif p.returncode not in (0, 1):
+            print(p.stdout[-1500:], p.stderr[-1500:])
 finally:
-    subprocess.run("git -C /repo checkout -- .", shell=True)
+    if inplace:
+        subprocess.run("git -C /repo checkout -- .", shell=True)
+    else:
+        sys.path.insert(0, "/verif")
+        os.environ["NV_REPO"] = wt
+        import nvbuild
+        shutil.rmtree(nvbuild.build_dir(wt), ignore_errors=True)
+        subprocess.run("git -C /repo worktree remove --force %s" % wt, shell=True)
+        shutil.rmtree(wt, ignore_errors=True)
+meta = json.load(open(d + "/meta.json"))
 meta.setdefault("runs", {})
 for c in res:
     meta["runs"]["%s/%s" % (c, tier)] = res[c]
